@@ -668,6 +668,108 @@ def scale_stream(rep: Report, rng: Rng):
                               {"kind": "scale", "fn": fn, "params": params, "seed": seed, "log2r": 12})
                 return
 
+# ------------------------------------------------------------------ kernel stream (generated terms vs the real kernels)
+# (T) harness/translators/kernels.py translates the curve kernels it covers (family "C05": `_riemann_integral`, `_compute_for_each_class`,
+# `_binary_precision_recall_curve_compute`, `_binary_auroc_compute_jit` for one task) from their
+# source into terms of TE/Model/TExpr.lean (TE/Gen/KernelsCurve.lean, regenerated here); TE/Props/C05_Kernels.lean proves the generated
+# terms equal to the models of TE/Model/Curve.lean; this stream runs the generated terms against the REAL functions.
+
+KERNEL_MODULES = {"tensor_utils": "torcheval.metrics.functional.tensor_utils",
+                  "classification/precision_recall_curve": "torcheval.metrics.functional.classification.precision_recall_curve",
+                  "classification/auroc": "torcheval.metrics.functional.classification.auroc"}
+
+
+def translate(rep: Report):
+    """(T) regenerate lean/TE/Gen/KernelsCurve.lean from the kernels' source (TE.Props.C05_Kernels is proved about it)"""
+    from ..translators import kernels
+    from ..common import LEAN
+    rows = kernels.generate(rep, family="C05")
+    props = (LEAN / "TE" / "Props" / "C05_Kernels.lean").read_text()
+    for r in rows:
+        if r["term"] is not None and f"Gen.Curve.k_{r['id']}" not in props.replace(f"Gen.Curve.k_{r['id']}_", ""):
+            rep.broke(f"kernels:{r['id']}", f"kernel {r['func']} is translated but no theorem of TE/Props/C05_Kernels.lean is about Gen.Curve.k_{r['id']}", {})
+
+
+def kernel_stream(rep: Report, rng: Rng):
+    """the GENERATED term of every translated kernel (request `gen.<kernel>`) against the REAL private function on the same
+    arguments (grid values: the sums are exact in float32).  A disagreement is a broken correspondence between the source and its
+    translation (`kernels:<name>`), never a violation by itself."""
+    import importlib
+    from ..common import enc_tensor
+    from ..translators import kernels
+    rows = {r["id"]: r for r in kernels.facts(family="C05")}
+    for r in rows.values():
+        if "fn" not in r:
+            try:
+                r["fn"] = getattr(importlib.import_module(KERNEL_MODULES[r["module"]]), r["func"], None)
+            except Exception:  # noqa: BLE001
+                r["fn"] = None
+    calls = []
+    if rows.get("riemann_integral", {}).get("term") is not None and rows["riemann_integral"].get("fn") is not None:
+        grid = [Fr(j, 8) for j in range(0, 9)]
+        for _ in range(1500 if rep.tier == "thorough" else 300):
+            n = rng.choice([0, 1, 2, 3, 5, 9])
+            xs = sorted(rng.grid(n, grid), reverse=rng.random() < 0.8) if rng.random() < 0.7 else rng.grid(n, grid)
+            x, y = ft(xs), ft(rng.grid(n, grid))
+            calls.append(("riemann_integral", {"x": x, "y": y}, call_real(rows["riemann_integral"]["fn"], x, y)))
+    def usable(kid):
+        return rows.get(kid, {}).get("term") is not None and rows[kid].get("fn") is not None
+    if usable("compute_for_each_class") or usable("binary_precision_recall_curve_compute"):
+        # scores with ties, all-negative / all-positive targets (recall NaN -> 1), n = 0 (RuntimeError inside TorchScript)
+        cases = []
+        for n in range(0, 4):
+            for xs in itertools.product([Fr(0), Fr(1, 2), Fr(1)], repeat=n):
+                for tsv in itertools.product([0, 1], repeat=n):
+                    cases.append((list(xs), list(tsv)))
+        for _ in range(1200 if rep.tier == "thorough" else 250):
+            n = rng.choice([4, 5, 6, 9, 17])
+            cases.append((tie_heavy(rng, n) if rng.random() < 0.7 else rng.grid(n, G5), labels(rng, n)))
+        for xs, tsv in cases:
+            x, t = ft(xs), it(tsv)
+            if usable("compute_for_each_class"):
+                calls.append(("compute_for_each_class", {"input": x, "target": t, "pos_label": 1},
+                              call_real(rows["compute_for_each_class"]["fn"], x, t, 1)))
+            if usable("binary_precision_recall_curve_compute"):
+                calls.append(("binary_precision_recall_curve_compute", {"input": x, "target": t},
+                              call_real(rows["binary_precision_recall_curve_compute"]["fn"], x, t)))
+    if usable("binary_auroc_compute_jit"):
+        # one task (1-d): ties, constant targets (factor 0 -> 0.5), with and without per-sample weights, n = 0 (RuntimeError);
+        # the `num_tasks > 1` branch is outside the grammar (kernels_coverage)
+        W3 = [Fr(1, 2), Fr(1), Fr(2)]
+        cases = [([], [])]
+        for n in range(1, 4):
+            for xs in itertools.product([Fr(0), Fr(1, 2), Fr(1)], repeat=n):
+                for tsv in itertools.product([0, 1], repeat=n):
+                    cases.append((list(xs), list(tsv)))
+        for _ in range(1200 if rep.tier == "thorough" else 250):
+            n = rng.choice([4, 5, 6, 9, 17])
+            cases.append((tie_heavy(rng, n) if rng.random() < 0.7 else rng.grid(n, G5), labels(rng, n)))
+        for xs, tsv in cases:
+            x, t = ft(xs), ft(tsv)
+            w = ft(rng.grid(len(xs), W3)) if rng.random() < 0.5 else None
+            calls.append(("binary_auroc_compute_jit", {"input": x, "target": t, "weight": w},
+                          call_real(rows["binary_auroc_compute_jit"]["fn"], x, t, w)))
+    lines = [f"fn gen.{kid} " + " ".join(f"{k}={enc_tensor(v) if isinstance(v, torch.Tensor) else ('none' if v is None else 'i.' + str(v))}"
+                                         for k, v in a.items()) for kid, a, _ in calls]
+    outs = run_driver(lines)
+    nbad = {}
+    for (kid, a, real), line, o in zip(calls, lines, outs):
+        rep.count(f"kernel-stream:{kid}")
+        if real[0] == "err":
+            rep.count(f"kernel-stream:err:{real[1]}")
+        rep.case(nontrivial_key=("kernel", line), sample={"request": line[:300], "model": o[:200]} if rep.dist.get(f"kernel-stream:{kid}") == 1 else None)
+        rep.traces += 1
+        msg = outcomes_agree(real, dec_out(o), strict_kind=True)
+        if msg is None:
+            continue
+        nbad[kid] = nbad.get(kid, 0) + 1
+        if nbad[kid] <= 3:
+            rep.broke(f"kernels:{kid}", f"the term generated from the source of {rows[kid]['module']}.{rows[kid]['func']} and the real function disagree ({msg}) "
+                      f"on {line[:400]}", {"kind": "kernel", "kernel": kid, "request": line, "generated": o,
+                                           "real": real[1] if real[0] == "err" else [t.tolist() for t in real[1]]})
+    rep.streams["kernels"] = {"cases": len(calls), "disagreements": sum(nbad.values()), "untranslated": [k for k, r in rows.items() if r["term"] is None]}
+
+
 def run(rep: Report):
     rng = Rng(rep.seed * 1000003 + 5)
     from .. import opscheck; opscheck.check_ops(rep, ["curve"])
@@ -676,6 +778,7 @@ def run(rep: Report):
     class_programs(rep, Rng(rep.seed * 1000003 + 55))
     dtype_stream(rep, Rng(rep.seed * 1000003 + 555))
     scale_stream(rep, Rng(rep.seed * 1000003 + 5555))
+    kernel_stream(rep, Rng(rep.seed * 1000003 + 55555))
 
 
 def search(rep: Report):
